@@ -159,19 +159,21 @@ def writeFile (cfg : FsCfg) (root : Dir) (p : Path) (content : List Char) (mode 
     -- pinned: `'w' in mode and file is None`; patched: `'w' in mode or ('a' in mode and file is None)`
     let fresh : Bool :=
       (mode = .w && (cfg.truncateOnW || old.isNone)) || (mode = .a && cfg.appendAtEnd && old.isNone)
-    if fresh then
-      -- `_parent_and_name`, then `parent_dir[name] = MemoryFile(...)`
-      match locate (.dir root) (key cfg (parentStr p)) with
-      | .error e => .error e
-      | .ok none => .error .notFound
-      | .ok (some (.dir _)) => .ok (setAt root (key cfg (parentStr p)) (nameStr p) (.file content))
-      | .ok (some (.file _)) => .error .notFound
-    else
+    -- writing through the file object found at `key p` (position 0, or the end for a patched 'a')
+    let existing : Except FsErr Dir :=
       match old with
       | none => .error .notFound
       | some c =>
         let c' := if mode = .a && cfg.appendAtEnd then c ++ content else overwrite content c
         .ok (updFile root (key cfg p) c')
+    if fresh then
+      -- `_parent_and_name`, then `parent_dir[name] = MemoryFile(...)` if the parent is a dict
+      match locate (.dir root) (key cfg (parentStr p)) with
+      | .error e => .error e
+      | .ok none => .error .notFound
+      | .ok (some (.dir _)) => .ok (setAt root (key cfg (parentStr p)) (nameStr p) (.file content))
+      | .ok (some (.file _)) => existing      -- e.g. '/mem/a/b/' where '/mem/a/b' is a file
+    else existing
 
 /-- `readfile(path)`. -/
 def readFile (cfg : FsCfg) (root : Dir) (p : Path) : Except FsErr (List Char) :=
